@@ -239,6 +239,28 @@ pub fn generate(tier: &str, rng: &mut Rng) -> Vec<String> {
         let seeds: Vec<Seed> = (0..n).map(|_| rand_seed(rng, max_lit)).collect();
         v.push(format!("packseeds {}", fmt_seeds(&seeds)));
     }
+    // unpack: every kind byte x every value of the byte after it (a length, an index), at the start, behind one seed and
+    // at the very end of the array, over a zero / 0xff / counting remainder — the extreme parameter bytes a random array
+    // almost never pairs with a valid kind byte
+    for d in [0u8, 1, 2, 3, 4, 5, 255] {
+        for b in 0..=255u8 {
+            if !thorough && !(b < 40 || b > 250 || b % 16 == 0) { continue; }
+            for fill in [0u8, 255, 7] {
+                for pos in [0usize, 2, 29, 30, 31] {
+                    let mut c = [0u8; 32];
+                    if pos > 0 { c[0] = 3; c[1] = 9; for x in c[2..pos].iter_mut() { *x = 0; } }
+                    if pos >= 29 { // fill the front with one literal so that the pair sits at a seed boundary
+                        c[0] = 1; c[1] = (pos - 2) as u8; for (i, x) in c[2..pos].iter_mut().enumerate() { *x = i as u8 + 1; }
+                    }
+                    c[pos] = d;
+                    if pos + 1 < 32 { c[pos + 1] = b; }
+                    for x in c[(pos + 2).min(32)..].iter_mut() { *x = fill; }
+                    v.push(format!("unpackseeds {}", hex(&c)));
+                    if pos == 0 { v.push(format!("unpackone {}", hex(&c))); v.push(format!("unpackone {}", hex(&c[..2]))); }
+                }
+            }
+        }
+    }
     // unpack: random arrays, structured arrays (valid packings with garbage tails / mutated bytes)
     for _ in 0..(if thorough { 800_000 } else { 4_000 }) {
         let mut c = [0u8; 32];
